@@ -18,7 +18,7 @@ from typing import Dict, List, Optional, Set
 
 from ..loader import AnalysisError, Project
 from ..report import Result
-from ..engines.abseval import Evaluator, Sym, Obj, Vec, Mat, Unsupported, IndexOut
+from ..engines.abseval import Evaluator, Sym, Obj, Vec, Mat, Unsupported, IndexOut, AbsRaise
 from . import bioc
 
 MOD = "corankco.ranking"
@@ -52,6 +52,55 @@ def np_hooks() -> Dict:
     return {"np.sum": np_sum, "np.max": np_max, "np.zeros": np_zeros, "np.arange": np_arange}
 
 
+def random_hooks(log: Dict, elem_script, move_script, in_step=None) -> Dict:
+    """Scripted integer draws, whatever their source: `random.randint(a, b)` (both bounds included) and
+    `numpy.random.randint(lo, hi[, size])` (upper bound excluded; several draws at once). `log["randint"]` records the
+    inclusive range of every single draw, `log["moves"]` those drawn while a step routine is running (the choice of the
+    move; the other draws choose elements). The scripted value is brought back into the range (the real functions refuse
+    an empty range with ValueError)."""
+    from ..engines.abseval import AbsRaise
+    el, mv = iter(elem_script), iter(move_script)
+
+    def one(lo, hi, call):
+        if hi < lo:
+            raise AbsRaise("ValueError", call)
+        inside = bool(in_step and in_step[0])
+        log.setdefault("moves" if inside else "randint", []).append((lo, hi))
+        try:
+            v = next(mv if inside else el)
+        except StopIteration:
+            raise Unsupported("more random draws than scripted", call)
+        return min(max(v, lo), hi)
+
+    def args_of(ev, call):
+        a = [ev.ev(x) for x in call.args]
+        kw = {k.arg: ev.ev(k.value) for k in call.keywords}
+        return a, kw
+
+    def py_randint(ev, call):
+        a, kw = args_of(ev, call)
+        return one(a[0], a[1], call)
+
+    def np_randint(ev, call):
+        a, kw = args_of(ev, call)
+        lo = a[0] if a else kw.get("low")
+        hi = a[1] if len(a) > 1 else kw.get("high")
+        size = a[2] if len(a) > 2 else kw.get("size")
+        if hi is None:
+            lo, hi = 0, lo
+        if size is None:
+            return one(lo, hi - 1, call)
+        if not isinstance(size, int):
+            raise Unsupported("numpy.random.randint with a shape", call)
+        if size == 0:
+            return Vec([])
+        return Vec([one(lo, hi - 1, call) for _ in range(size)])
+    out = {"randint": py_randint, "random.randint": py_randint}
+    for mod in ("np.random", "numpy.random"):
+        out[mod + ".randint"] = np_randint
+    return out
+
+
 def is_dense(vals: List[int]) -> bool:
     ranked = [v for v in vals if v >= 0]
     if any(v < -1 for v in vals):
@@ -76,7 +125,7 @@ def states(n: int, incomplete: bool):
             yield v
 
 
-def find_role(proj: Project, cls, name: str):
+def find_role(proj: Project, cls, name: str, optional: bool = False):
     """The routine playing role `name` (e.g. '__add_left'): a method of the class under that name, or - after a
     refactoring that moved the private helpers out of the class - a module-level function of the same module whose name
     differs only by leading underscores."""
@@ -88,7 +137,7 @@ def find_role(proj: Project, cls, name: str):
     if len(cands) == 1:
         return cands[0]
     f = proj._recover_anchor(cls, name)
-    if f is not None:
+    if f is not None or optional:
         return f
     raise AnalysisError(f"anchor routine {cls.qualname}.{name} not found (neither as a method nor as a function of "
                         f"{cls.module.name})")
@@ -97,26 +146,28 @@ def find_role(proj: Project, cls, name: str):
 class StepSim:
     def __init__(self, proj: Project):
         self.cls = proj.cls(MOD, "Ranking")
-        self.fn = {m: find_role(proj, self.cls, m) for m in MOVES + ["__step_element_complete", "__step_element_incomplete",
-                                                                    "__change_ranking_complete", "__change_ranking_incomplete"]}
+        self.fn = {m: find_role(proj, self.cls, m) for m in MOVES + ["__step_element_complete", "__step_element_incomplete"]}
+        # the per-ranking walk drivers are optional: a generator that loops over the steps itself has none
+        for m in ("__change_ranking_complete", "__change_ranking_incomplete"):
+            f = find_role(proj, self.cls, m, optional=True)
+            if f is not None and f not in self.fn.values():
+                self.fn[m] = f
 
-    def funcs(self, draws: List[int], log: Dict) -> Dict:
+    def funcs(self, elem_draws: List[int], move_draws: List[int], log: Dict) -> Dict:
         funcs = np_hooks()
-        it = iter(draws)
-
-        def randint(ev, call):
-            a = [ev.ev(x) for x in call.args]
-            log.setdefault("randint", []).append(tuple(a))
-            try:
-                return next(it)
-            except StopIteration:
-                raise Unsupported("more random draws than scripted", call)
-        funcs["randint"] = randint
-        funcs["random.randint"] = randint
+        depth = [0]
+        funcs.update(random_hooks(log, elem_draws, move_draws, depth))
         for m in self.fn:
             def hook(ev, call, m=m):
                 log.setdefault("calls", []).append(m)
-                return ev.call_user(self.fn[m].node, [ev.ev(a) for a in call.args])
+                args = [ev.ev(a) for a in call.args]       # (an element drawn in the argument list is drawn outside)
+                if m.startswith("__step_element"):
+                    depth[0] += 1
+                try:
+                    return ev.call_user(self.fn[m].node, args)
+                finally:
+                    if m.startswith("__step_element"):
+                        depth[0] -= 1
             funcs["Ranking." + m] = hook
             funcs["Ranking._Ranking" + m] = hook
             funcs[self.fn[m].name] = hook                   # module-level form
@@ -127,7 +178,9 @@ class StepSim:
     def step(self, mode: str, vec: List[int], elem: int, draw: int):
         log: Dict = {}
         v = Vec(list(vec))
-        evl = Evaluator({}, self.funcs([draw], log))
+        funcs = self.funcs([], [], log)
+        funcs.update(random_hooks(log, [], [draw], [1]))        # the step routine is entered directly: every draw is a move draw
+        evl = Evaluator({}, funcs)
         evl.strict_index = True
         missing: Set[int] = {i for i, x in enumerate(vec) if x < 0}
         try:
@@ -150,15 +203,15 @@ def run(ctx) -> Result:
     for f in sim.fn.values():
         res.saw(f)
     res.rule("M1", "every Markov step maps a dense bucket-id vector to a dense one (all vectors of <= 4 elements, every "
-                   "element, every draw)", 9)
+                   "element, every draw 0..6)", 14)
     res.rule("M2", "complete mode never unranks; incomplete mode keeps the missing set exact", 2)
-    res.rule("M3", "draw ranges and step count", 3)
+    res.rule("M3", "draw ranges and step count (3 elements and a single element)", 5)
     res.rule("M4", "vector -> buckets conversion; uniform permutations", 4)
     res.rule("M5", "dataset wrappers pass arguments through to the generators and the Dataset constructor", 2)
     res.rule("M6", "the Dataset constructor flags m complete rankings as complete (and counts them) for every m of the grid", 1)
     nmax = 5 if ctx.thorough else 4
     # ------------------------------------------------------------------ M1 / M2
-    for mode, draws in (("complete", (1, 2, 3, 4)), ("incomplete", (1, 2, 3, 4, 5))):
+    for mode, draws in (("complete", (1, 2, 3, 4, 0, 5, 6)), ("incomplete", (1, 2, 3, 4, 5, 0, 6))):
         bad_missing = None
         n_cases = 0
         for draw in draws:
@@ -197,22 +250,39 @@ def run(ctx) -> Result:
                   if bad_missing else "")
         res.extra[f"markov_cases_{mode}"] = n_cases
     # ------------------------------------------------------------------ M3
+    gen = proj.method(sim.cls, "generate_rankings")
     for mode, hi in (("complete", 4), ("incomplete", 5)):
-        log: Dict = {}
-        v = Vec([0, 1, 2])
-        draws = [1, 3, 0, 3]            # elem draw, move draw, elem draw, move draw (order decided by the code)
-        evl = Evaluator({}, sim.funcs([0, 3, 2, 3], log))
-        try:
-            args = [v, 2, 3] + ([set()] if mode == "incomplete" else [])
-            evl.call_user(sim.fn[f"__change_ranking_{mode}"].node, args)
-        except Unsupported as exc:
-            raise AnalysisError(f"{MOD}: unsupported construct in __change_ranking_{mode}: {exc}")
-        ri = log.get("randint", [])
-        calls = [c for c in log.get("calls", []) if c.startswith("__step_element")]
-        good = sorted(ri) == sorted([(0, 2), (1, hi)] * 2) and calls == [f"__step_element_{mode}"] * 2
-        res.check(good, "M3", f"Ranking.__change_ranking_{mode}:draws", sim.fn[f"__change_ranking_{mode}"].loc(),
-                  ok_detail=f"`steps` steps, element ~ randint(0, n-1), move ~ randint(1, {hi})",
-                  bad_detail=f"2 steps on 3 elements drew randint{ri} and called {calls}")
+        for n_el in (3, 1):
+            log: Dict = {}
+            # two steps: elements 0 then 2, move 3 twice (the order of the draws is decided by the code); the whole
+            # generator is evaluated, so the walk may be a helper per ranking or a loop of the generator itself, and the
+            # draws may come from random or numpy.random, one at a time or all at once
+            funcs = sim.funcs([0, 2], [3, 3], log)
+            funcs["Ranking"] = lambda ev, call: ("Ranking", ev.ev(call.args[0]))
+            funcs["Element"] = lambda ev, call: ev.ev(call.args[0])
+            evl = Evaluator({}, funcs)
+            raised = None
+            try:
+                ret = evl.call_user(gen.node, [n_el, 1, 2, mode == "complete"])
+            except AbsRaise as r:
+                raised, ret = r.exc_name, None
+            except Unsupported as exc:
+                raise AnalysisError(f"{gen.qualname}: unsupported construct line {getattr(exc.node, 'lineno', '?')} "
+                                    f"(walk of 2 steps on {n_el} element(s), {mode}): {exc}")
+            ri = log.get("randint", [])
+            calls = [c for c in log.get("calls", []) if c.startswith("__step_element")]
+            # what the shape guarantee needs: no draw can fall outside 0..n-1 (elements) or outside the draws M1 / M2
+            # examined (0..6 in both modes), no range is empty, and only steps of the requested mode are taken. Narrower ranges
+            # and other step counts change the distribution, which the property does not constrain.
+            mv = log.get("moves", [])
+            good = raised is None and bool(calls) and set(calls) == {f"__step_element_{mode}"} and bool(ri) and bool(mv) and \
+                all(0 <= lo and hi_ <= n_el - 1 for lo, hi_ in ri) and all(0 <= lo and hi_ <= 6 for lo, hi_ in mv)
+            if n_el == 1:
+                good = good and ret == [("Ranking", [{0}])]
+            res.check(good, "M3", f"Ranking.generate_rankings:walk:{mode}:n={n_el}:draws", gen.loc(),
+                      ok_detail="steps of the requested mode only, elements drawn within 0..n-1, moves within the examined draws 0..6",
+                      bad_detail=f"2 steps on {n_el} element(s): " + (f"raised {raised}; " if raised else "") +
+                                 f"element draws over the ranges {ri}, move draws over {mv}, steps {calls}" + (f", result {ret!r}" if n_el == 1 else ""))
     # every draw value selects a move (no draw falls through silently in complete mode)
     hit = set()
     for draw in (1, 2, 3, 4):
@@ -241,33 +311,55 @@ def _check_conversion(res: Result, proj: Project, sim: StepSim):
     gen = proj.method(cls, "generate_rankings")
     res.saw(gen)
     for complete, targets in ((True, [[1, 0, 1], [0, 1, 2]]), (False, [[-1, 0, 0], [1, -1, 0], [-1, -1, -1]])):
-        log: Dict = {"initial": [], "args": []}
+        log: Dict = {"initial": [], "steps": [], "draws": []}
         funcs = np_hooks()
-        k = [0]
+        rows_seen: Dict[int, int] = {}
+        keep = []
 
-        def change(ev, call, complete=complete):
+        def step(ev, call, complete=complete):
+            # one Markov step, scripted: whatever the element, the row becomes the target vector of its ranking (the
+            # first step on a row sees the initial row and the initial working set of non-ranked elements)
             a = [ev.ev(x) for x in call.args]
             row = a[0]
-            log["initial"].append(list(row))
-            log["args"].append(a[1:3])
-            miss = a[3] if len(a) > 3 else None
+            key = id(row.vals) if isinstance(row, Vec) else id(row)
+            if key not in rows_seen:
+                keep.append(row)
+                rows_seen[key] = len(rows_seen)
+                log["initial"].append(list(row.vals) if isinstance(row, Vec) else list(row))
+                log["steps"].append(0)
+                if len(a) > 2 and isinstance(a[2], set):
+                    log.setdefault("missing_at_start", []).append(set(a[2]))
+            k = rows_seen[key]
+            log["steps"][k] += 1
+            if k >= len(targets):
+                return None
+            miss = a[2] if len(a) > 2 else None
             if isinstance(miss, set):
-                # like the real walk: the set is the walk's working state - empty at the start of every ranking, and
-                # holding the elements left non-ranked at its end
-                log.setdefault("missing_at_start", []).append(set(miss))
                 miss.clear()
-                miss.update(i for i, x in enumerate(targets[k[0]]) if x < 0)
-            for i, x in enumerate(targets[k[0]]):
-                row[i] = x
-            k[0] += 1
+                miss.update(i for i, x in enumerate(targets[k]) if x < 0)
+            cells = row.vals if isinstance(row, Vec) else row
+            for i, x in enumerate(targets[k]):
+                cells[i] = x
+
+        rlog: Dict = {}
+        funcs.update(random_hooks(rlog, itertools.repeat(0), itertools.repeat(1)))
+        log["draws"] = rlog.setdefault("randint", [])
         other_called = []
-        for role, hook in (("__change_ranking_complete", change if complete else (lambda ev, call: other_called.append(1))),
-                           ("__change_ranking_incomplete", change if not complete else (lambda ev, call: other_called.append(1)))):
+        for role, hook in (("__step_element_complete", step if complete else (lambda ev, call: other_called.append(1))),
+                           ("__step_element_incomplete", step if not complete else (lambda ev, call: other_called.append(1)))):
             funcs["Ranking." + role] = hook
             funcs["Ranking._Ranking" + role] = hook
             funcs[sim.fn[role].name] = hook             # module-level form after a move out of the class
             funcs["Ranking." + sim.fn[role].name] = hook
             funcs["Ranking._Ranking" + sim.fn[role].name] = hook
+        for role in ("__change_ranking_complete", "__change_ranking_incomplete"):
+            if role in sim.fn:
+                def walk(ev, call, role=role):
+                    return ev.call_user(sim.fn[role].node, [ev.ev(x) for x in call.args])
+                for nm in {role, sim.fn[role].name}:
+                    funcs["Ranking." + nm] = walk
+                    funcs["Ranking._Ranking" + nm] = walk
+                funcs[sim.fn[role].name] = walk
         funcs["Ranking"] = lambda ev, call: ("Ranking", ev.ev(call.args[0]))
         funcs["Element"] = lambda ev, call: ev.ev(call.args[0])
         evl = Evaluator({}, funcs)
@@ -284,14 +376,15 @@ def _check_conversion(res: Result, proj: Project, sim: StepSim):
                 if b >= 0:
                     buckets[b].add(e)
             want.append(("Ranking", buckets))
-        good = ret == want and all(r == [0, 1, 2] for r in log["initial"]) and not other_called \
-            and all(a[0] == 7 and a[1] == 3 for a in log["args"]) \
+        good = ret == want and log["initial"] == [[0, 1, 2]] * len(targets) and not other_called \
+            and all(k >= 1 for k in log["steps"]) and len(log["steps"]) == len(targets) \
+            and all(lo == 0 and hi_ <= 2 for lo, hi_ in log["draws"]) \
             and all(not m_ for m_ in log.get("missing_at_start", []))
         res.check(good, "M4", f"Ranking.generate_rankings:conversion:complete={complete}", gen.loc(),
                   ok_detail="rows start as 0..n-1, the walk for the requested mode is applied, ids become buckets over "
                             "exactly the ranked elements",
                   bad_detail=f"final vectors {targets}: produced {ret!r}, expected {want!r}; initial rows {log['initial']}; "
-                             f"walk args {log['args']}; non-ranked elements at the start of each walk "
+                             f"steps per ranking {log['steps']} (7 requested); element draws {sorted(set(log['draws']))}; non-ranked elements at the start of each walk "
                              f"{log.get('missing_at_start')}; other mode called: {bool(other_called)}")
 
 
@@ -312,10 +405,16 @@ def _check_uniform(res: Result, proj: Project):
         ret = evl.call_user(up.node, [4, 3])
     except Unsupported as exc:
         raise AnalysisError(f"{up.qualname}: unsupported construct line {getattr(exc.node, 'lineno', '?')}: {exc}")
-    want = [("Ranking", [{4}, {3}, {2}, {1}])] * 3
-    res.check(ret == want and shuffles == [[1, 2, 3, 4]] * 3, "M4", "Ranking.uniform_permutations", up.loc(),
-              ok_detail="each ranking is a shuffle of 1..n as singleton buckets; one per requested ranking",
-              bad_detail=f"n=4, 3 rankings (shuffle scripted as reversal): produced {ret!r}; shuffled lists {shuffles}")
+
+    def well_formed(ret_, n_, m_):
+        return isinstance(ret_, list) and len(ret_) == m_ and all(
+            isinstance(r, tuple) and r[0] == "Ranking" and isinstance(r[1], list) and len(r[1]) == n_
+            and all(isinstance(b, set) and len(b) == 1 for b in r[1])
+            and set().union(*r[1]) == set(range(1, n_ + 1)) for r in ret_)
+    # whatever the source of randomness (python shuffle scripted as a reversal, or the numpy sources of the shared model)
+    res.check(well_formed(ret, 4, 3), "M4", "Ranking.uniform_permutations", up.loc(),
+              ok_detail="each ranking is a permutation of 1..n as singleton buckets; one per requested ranking",
+              bad_detail=f"n=4, 3 rankings: produced {ret!r}" + (f"; shuffled lists {shuffles}" if shuffles else ""))
     evl = Evaluator({}, funcs)
     ret0 = evl.call_user(up.node, [1, 1])
     res.check(ret0 == [("Ranking", [{1}])], "M4", "Ranking.uniform_permutations:n=1", up.loc(),
